@@ -16,14 +16,16 @@ Open Scope Q_scope.
 
 Record T : Type := mk { A : Q; B : Q; C : Q; D : Q; E : Q; F : Q }.
 
-Inductive dim := Px (v : Q) | Pct (v : Q).
+(* Em: relative to the box's computed font size (computed_values.go length_: value * fontSize);
+   only generated for translate() arguments *)
+Inductive dim := Px (v : Q) | Pct (v : Q) | Em (v : Q).
 Inductive tfun :=
 | TScale (sx sy : Q)
 | TRotate (c s : Q)               (* cos, sin of the angle *)
 | TTranslate (x y : dim)
 | TSkew (tx ty : Q)               (* tan of the two angles *)
 | TMatrix (a b c d e f : Q).
-Record box_geom := { bbx : Q; bby : Q; bw : Q; bh : Q; orx : dim; ory : dim }.
+Record box_geom := { bbx : Q; bby : Q; bw : Q; bh : Q; orx : dim; ory : dim; fsz : Q }.
 Inductive svg_src :=
 | SRotate1 (a : Q) | SRotate3 (a cx cy : Q)
 | STranslate1 (x : Q) | STranslate2 (x y : Q)
@@ -151,7 +153,11 @@ Definition skew_tt (t : T) (tx ty : Q) : T := right_mult_by t (skew_t tx ty).
 (* CSS: getMatrix (document.go:35-84).  A length-or-percentage is
    resolved against a reference length as pr.ResolvePercentage does. *)
 Definition resolve_pct (d : dim) (ref : Q) : Q :=
-  match d with Px v => v | Pct v => ref *. v /. 100%Q end.
+  match d with Px v => v | Pct v => ref *. v /. 100%Q | Em v => v end.
+(* a translate() argument: em lengths were made absolute at computed-value time
+   (computed_values.go transforms -> length_: value * fontSize) *)
+Definition resolve_dim (g : box_geom) (d : dim) (ref : Q) : Q :=
+  match d with Em v => v *. fsz g | _ => resolve_pct d ref end.
 
 (* The computed value of `transform` after validation (validation.go
    transformFunction): names scale, rotate, translate, skew, matrix.  Trig
@@ -161,7 +167,7 @@ Definition right_mat (g : box_geom) (f : tfun) : T :=
   match f with
   | TScale sx sy => scale identity sx sy
   | TRotate c s => rotate_cs identity c s
-  | TTranslate x y => translate identity (resolve_pct x (bw g)) (resolve_pct y (bh g))
+  | TTranslate x y => translate identity (resolve_dim g x (bw g)) (resolve_dim g y (bh g))
   | TSkew tx ty => skew_tt identity tx ty
   | TMatrix a b c d e f => mk a b c d e f
   end.
